@@ -141,7 +141,7 @@ RunChoice(t, v, b, sc) ==
   LET r == Entry(b, sc, FALSE, TRUE)
   IN IF ~r.ok THEN r
      ELSE IF v.i < 0 \/ v.i >= Len(t.alts) THEN Res(r.buf, r.sc, FALSE)
-     ELSE LET idx == Index(t.nroot, t.ext, v.i)
+     ELSE LET idx == Index(t.nroot, t.ext, ChoiceIndex(t, v.i))      \* 23.2 (canonical order of the alternatives' tags)
           IN IF ~idx.ok THEN Res(r.buf, r.sc, FALSE)
              ELSE IF v.i < t.nroot
              THEN LET s == Run(t.alts[v.i + 1], v.v, r.buf \o idx.bits, NoScope) IN Res(s.buf, r.sc, s.ok)
